@@ -223,6 +223,12 @@ class History:
         sysv = observe(self.dic[oid], acc)
         if not self.oracle:
             return True
+        if self.stats["reads"] % 25 == 0:
+            # every 25th reference value comes from a copy on which nothing else has been read: a
+            # defect through which one evaluation corrupts the cached value of another would
+            # otherwise hit the reference in the same way (same reads, same order)
+            self._fresh_key = None
+            self.stats["pristine_reference_reads"] = self.stats.get("pristine_reference_reads", 0) + 1
         fr = self.fresh()
         if fr is None:
             self.stats["unjudged_reads"] = self.stats.get("unjudged_reads", 0) + 1
